@@ -48,6 +48,7 @@ func VerifHarness_C04() {
 	}
 	if fleet {
 		w.EC2.ReadyAfter = 1
+		w.J.TypedErrors = true // a failing cloud call: plain error, AWS throttling, or AWS ValidationError "... not found"
 	}
 	asg := w.AS.Group(o.CloudProviderGroupName)
 	if !prior {
